@@ -50,8 +50,36 @@ def cond_of(c):
     if c['routine'] == 'makerandCIJdegreesfixed':
         d['graphical'] = bool(c.get('graphical'))
     if c['routine'] == 'maketoeplitzCIJ':
-        d['template_deficit_ge3'] = toeplitz_deficit(c['n'], c['k'], c['s']) >= 3.0
+        d['hit_prob_le_2e-3'] = toeplitz_hit_prob(c['n'], c['k'], c['s']) <= 2e-3
+    if c['routine'] in ('makeevenCIJ', 'makefractalCIJ'):
+        d['n_is_1'] = bool(c.get('n1'))
     return d
+
+
+def toeplitz_hit_prob(n, k, s):
+    """exact probability that ONE sample `u < template` has exactly K connections, for the ideal template computed here
+    independently of bct (Gaussian profile scaled to sum K; an entry >= 1 is always set, <= 0 or NaN never): a Poisson-binomial
+    over the N(N-1) off-diagonal cells.  The rejection loop draws 10001 samples, so it gives up with probability (1-q)^10001:
+    q <= 2e-3 means a give-up is to be expected with probability > 1e-9 (q = 0: K exceeds the number of cells with positive
+    probability, lies below the number of cells with probability 1, or the profile underflowed to a NaN template);
+    for q > 2e-3 a give-up has probability < 1e-9 on correct code."""
+    from scipy import stats, linalg
+    if k == 0:
+        return 1.0
+    if n < 2:
+        return 0.0
+    with np.errstate(all='ignore'):
+        pf = stats.norm.pdf(range(1, n), .5, s)
+        T = linalg.toeplitz(np.append((0,), pf))
+        T = T * (k / T.sum())
+    if not np.all(np.isfinite(T)):
+        return 0.0
+    ps = [min(1.0, max(0.0, float(T[i, j]))) for i in range(n) for j in range(n) if i != j]
+    dist = np.zeros(k + 2); dist[0] = 1.0
+    for p_ in ps:
+        dist[1:] = dist[1:] * (1 - p_) + dist[:-1] * p_
+        dist[0] *= (1 - p_)
+    return float(dist[k])
 
 
 def toeplitz_deficit(n, k, s):
@@ -192,6 +220,8 @@ def lean_line(c, res):
     draws = ','.join(map(str, res['draws'])) or '-'
     if c['routine'] == 'maketoeplitzCIJ':
         T = np.array(res['thr']) if res.get('thr') is not None else np.zeros((c['n'], c['n']))
+        if not np.all(np.isfinite(T)):
+            return None                 # the profile underflowed: NaN template, nothing to hand to the model
         return 'maketoeplitzCIJ n=%d k=%d prof=%s draws=%s' % (c['n'], c['k'], ','.join(thr_str(x) for x in T[0, 1:]) or '-', draws)
     if c['routine'] == 'makefractalCIJ':
         n = 2 ** c['mx_lvl']
@@ -239,6 +269,9 @@ def gen_cases(rs, tier):
         for s in (1,):
             for _ in range(2):
                 cases.append({'routine': 'makeevenCIJ', 'n': 2, 'k': max(k, 2), 'sz_cl': s, 'seed': int(rs.randint(2 ** 31)), 'mx1': True})
+    # N = 1 = 2**0: no hierarchical level at all
+    cases.append({'routine': 'makeevenCIJ', 'n': 1, 'k': 0, 'sz_cl': 1, 'seed': 1, 'n1': True})
+    cases.append({'routine': 'makefractalCIJ', 'mx_lvl': 0, 'E': 2, 'sz_cl': 1, 'seed': 1, 'n1': True})
     # N not a power of two: the code shrinks it to 2**floor(log2 N) with a printed warning (no claim; the model's driver does the same)
     for n, k, s in ((5, 9, 1), (6, 12, 2), (7, 5, 1), (12, 40, 2), (3, 2, 1)):
         cases.append({'routine': 'makeevenCIJ', 'n': n, 'k': k, 'sz_cl': s, 'seed': int(rs.randint(2 ** 31)), 'malformed': 'n-not-power-of-two',
@@ -260,8 +293,10 @@ def gen_cases(rs, tier):
         if n in (5, 6):
             ks += [n * (n - 1) - 2, n * (n - 1)]                               # a few dense K (the rejection loop gives up for small s)
         for k in ks:
-            for s in (1.0, 2.0, 4.0):
-                for _ in range(2 if not big else seeds):
+            for s in (.001, .01, .02, .25, .3, .5, 1.0, 2.0, 4.0):
+                if s < 1 and not big and (n > 5 or (k + n) % 2):      # narrow profiles: a slice in the quick tier (give-ups cost 10001 rounds)
+                    continue
+                for _ in range((2 if s >= 1 else 1) if not big else seeds):
                     cases.append({'routine': 'maketoeplitzCIJ', 'n': n, 'k': k, 's': s, 'seed': int(rs.randint(2 ** 31))})
     # fractal
     for mx in ((1, 2, 3, 4) if not big else (1, 2, 3, 4, 5)):
@@ -416,7 +451,8 @@ def main():
     ck.assumptions += ['K feasible: K <= N(N-1) (N(N-1)/2 undirected), K >= number of cluster cells for makeevenCIJ, N a power of two >= 4 where required',
                        'maketoeplitzCIJ (10000 rejections) and makerandCIJdegreesfixed (repair loop) may give up with BCTParamError on in-domain input: reported as violations of the '
                        'predicates gives-up-after-10000-rejections / gives-up-on-graphical-input; they match the open known findings only if (degreesfixed) the input is graphical and the '
-                       'as-coded model gives up on the same draws, (toeplitz) the independently computed clipped template falls short of K by >= 3 expected connections; '
+                       'as-coded model gives up on the same draws, (toeplitz) the exact probability that one sample of the independently computed clipped template has K connections is <= 2e-3 (a give-up then has '
+                       'probability > 1e-9; it is 0 when K exceeds the cells with positive probability or the profile underflows to a NaN template); '
                        'any other give-up, and a degreesfixed give-up rate above 15 %, is a new VIOLATION; rates are in coverage.give_up_rates',
                        'history: the shuffled cases run in batches of 40, each batch sequentially in a fresh process, plus explicit sequences of sibling generators at equal n '
                        '(dense requests after sparse ones); a failure is reported with the calls that preceded it in its process (replayed as history + case); '
@@ -474,7 +510,9 @@ def main():
         if c.get('malformed'):
             ck.count('malformed:' + c['malformed'])
         elif r['status'] == 'exc':
-            if rt in ('makerandCIJdegreesfixed', 'maketoeplitzCIJ') and exc_kind(r['exc']) == 'BCTParamError':
+            if c.get('n1') and exc_kind(r['exc']) == 'BCTParamError':
+                ck.count('n=1:rejected')          # no hierarchical level: the documented error is the acceptable answer (as the model says)
+            elif rt in ('makerandCIJdegreesfixed', 'maketoeplitzCIJ') and exc_kind(r['exc']) == 'BCTParamError':
                 # in-domain input on which the routine gives up: the property promises a matrix.  Judged after the model has
                 # replayed the run (cond['model_gives_up']): only give-ups the as-coded model reproduces can be the known finding
                 ck.count(rt + ':gave-up')
@@ -484,7 +522,7 @@ def main():
         else:
             for pred, info in r['fails']:
                 ck.violation(rt, pred, {'case': c, 'history': hist[n_], 'output': r.get('X'), 'info': info}, cond)
-        if rt == 'maketoeplitzCIJ' and r.get('thr') is not None:
+        if rt == 'maketoeplitzCIJ' and r.get('thr') is not None and np.all(np.isfinite(np.array(r['thr'], dtype=float))):
             T = np.array(r['thr']); nn = c['n']
             toep = all(T[i, j] == (0 if i == j else T[0, abs(i - j)]) for i in range(nn) for j in range(nn))
             if not (toep and r['thr_stable']):
@@ -498,6 +536,8 @@ def main():
             ck.count('degreesfixed:rep=%s' % (c.get('rep') or 'int64'))
         if rt == 'makerandCIJdegreesfixed' and len(r['draws']) > sum(c['inv']):
             ck.count('degreesfixed:repair-loop-entered')
+        if c.get('n1') and r['status'] != 'exc':
+            continue                    # open finding C20-hier-n1: nothing to compare (the model, like the proposed repair, rejects)
         if c.get('size'):
             ck.count('size-axis:%s:%s' % (rt, 'model-replay' if c.get('replay', True) else 'predicates-only'))
         if rt in MODELLED and c.get('replay', True):
@@ -542,9 +582,9 @@ def main():
         rates['makerandCIJdegreesfixed graphical'] = {'cases': len(dom), 'gave_up': gu, 'rate': round(gu / max(1, len(dom)), 4), 'bound': DEGREESFIXED_GIVEUP_BOUND}
         if dom and gu > DEGREESFIXED_GIVEUP_BOUND * len(dom):
             ck.violation('makerandCIJdegreesfixed', 'give-up-rate-above-documented-level', rates['makerandCIJdegreesfixed graphical'], {'routine': 'makerandCIJdegreesfixed'})
-        for name, sel in (('deficit>=3', True), ('deficit<3', False)):
+        for name, sel in (('hit probability <= 2e-3', True), ('hit probability > 2e-3', False)):
             dom = [(c, r) for c, r in zip(cases, results) if c['routine'] == 'maketoeplitzCIJ' and not c.get('malformed')
-                   and (toeplitz_deficit(c['n'], c['k'], c['s']) >= 3.0) == sel]
+                   and (toeplitz_hit_prob(c['n'], c['k'], c['s']) <= 2e-3) == sel]
             gu = sum(r['status'] == 'exc' and exc_kind(r['exc']) == 'BCTParamError' for c, r in dom)
             rates['maketoeplitzCIJ ' + name] = {'cases': len(dom), 'gave_up': gu, 'rate': round(gu / max(1, len(dom)), 4)}
         ck.cov['give_up_rates'] = rates
